@@ -138,6 +138,7 @@ fn worker(args: &[String]) -> i32 {
             let mut cost_checked = 0usize;
             let clone_own_armed = mon.armed.iter().any(|a| matches!(a, Some(cactus_mc::ops::Script::CloneOwn(_))));
             for &l in &cfg.layouts {
+                let mut predicted_abort = false;
                 if clone_own_armed {
                     // C16: dry run first; if the armed destructor would clone a handle to a
                     // dead object the real run must end the process - say so beforehand
@@ -147,9 +148,17 @@ fn worker(args: &[String]) -> i32 {
                     if m_dry.noted_dead_clone {
                         writeln!(out, "X {l}").unwrap();
                         out.flush().unwrap();
+                        predicted_abort = true;
                     }
                 }
-                let (_m, o) = run_history_from(&cfg, l, &h2, hist.len(), cfg.probe, false, cost);
+                let (_m, mut o) = run_history_from(&cfg, l, &h2, hist.len(), cfg.probe, false, cost);
+                if predicted_abort && !o.viol.iter().any(|v| v.clause == "K16") {
+                    o.viol.push(Viol {
+                        clause: "K16",
+                        sig: "clone-of-dead-handle-did-not-end-the-process".into(),
+                        detail: "a destructor cloned a strong handle to an object that is destroyed (or being destroyed by the running call); the process must end there, but the call came back".into(),
+                    });
+                }
                 for v in &o.viol {
                     viols.push((l, o.viol_step, v.clone()));
                 }
@@ -161,7 +170,8 @@ fn worker(args: &[String]) -> i32 {
                 }
                 all_dead += o.all_dead_checked;
                 cost_checked += o.cost_checked;
-                if o.viol.is_empty() {
+                if o.viol.iter().all(|v| world::soft(v.clause)) {
+                    // the state after the operation is well defined: it must not depend on the layout
                     let sig = (o.key, o.died_last, o.probe_digest);
                     match first {
                         None => first = Some(sig),
@@ -186,10 +196,11 @@ fn worker(args: &[String]) -> i32 {
             }
             h2.pop();
             let (key, died, probe) = first.unwrap_or(([0, 0], 0, 0));
+            let hard = first.is_none() || viols.iter().any(|(_, _, v)| !world::soft(v.clause));
             writeln!(
                 out,
-                "R {i} {:016x}{:016x} {died} {probe:016x} {} {} {} {} {} {} {} {}",
-                key[0], key[1], viols.len(), paths[0], paths[1], paths[2], paths[3], paths[4], all_dead, cost_checked
+                "R {i} {:016x}{:016x} {died} {probe:016x} {} {} {} {} {} {} {} {} {}",
+                key[0], key[1], viols.len(), paths[0], paths[1], paths[2], paths[3], paths[4], all_dead, cost_checked, hard as u8
             )
             .unwrap();
             for (l, step, v) in &viols {
@@ -215,6 +226,8 @@ struct Trans {
     probe: u64,
     viols: Vec<VRec>,
     stats: [usize; 7],
+    /// a violation after which the path must not be extended (or a crash)
+    hard: bool,
 }
 
 #[derive(Clone)]
@@ -434,6 +447,36 @@ fn crash_signature(err_path: &str, status: &str, sym: &Mutex<Symbolizer>) -> (St
     (sig, excerpt)
 }
 
+/// which extended alphabet a history uses (decides the property a violation is attributed to)
+fn context_of(hist: &[Op]) -> String {
+    use cactus_mc::ops::Script;
+    let mut ctx = "base";
+    for op in hist {
+        match op {
+            Op::Arm(_, Script::Panic) => return "script:panic".to_string(),
+            Op::Arm(_, Script::UpgradeOwn(_)) | Op::Arm(_, Script::UpgradeRoot(_)) => {
+                if ctx == "base" {
+                    ctx = "script:upgrade";
+                }
+            }
+            Op::Arm(_, Script::CloneOwn(_)) | Op::Arm(_, Script::DropOwn(_)) => ctx = "script:own-handle",
+            Op::Arm(..) => ctx = "script:api",
+            Op::TryUnwrap(_) | Op::DropUnwrapped(_) | Op::MakeMut(_) | Op::GetMut(_) | Op::RawRoundTrip(_) | Op::IncStrong(_) | Op::DecStrong(_) => {
+                if ctx == "base" {
+                    ctx = "consume";
+                }
+            }
+            Op::Take(_, _, cactus_mc::ops::TakeMode::Elide) => {
+                if ctx == "base" {
+                    ctx = "elide";
+                }
+            }
+            _ => {}
+        }
+    }
+    ctx.to_string()
+}
+
 fn explore(args: &[String]) -> i32 {
     let cfg_spec = arg_value(args, "--cfg").unwrap_or_default();
     let cfg = Config::parse(&cfg_spec).expect("bad --cfg");
@@ -462,7 +505,9 @@ fn explore(args: &[String]) -> i32 {
     let mut distinct_died: HashSet<u8> = HashSet::new();
     let mut orders: HashSet<(u64, u64)> = HashSet::new();
     // violations grouped by (clause, sig)
-    let mut groups: HashMap<(String, String), (usize, Vec<(Vec<Op>, VRec)>)> = HashMap::new();
+    // violations grouped by (clause, signature, kind of history) - the kind decides
+    // which property a violation belongs to, so it must not be mixed inside a group
+    let mut groups: HashMap<(String, String, String), (usize, Vec<(Vec<Op>, VRec)>)> = HashMap::new();
     let mut machinery: Vec<String> = Vec::new();
     let mut samples: Vec<String> = Vec::new();
     let mut first_hist: Vec<Vec<Op>> = Vec::new();
@@ -574,6 +619,7 @@ fn explore(args: &[String]) -> i32 {
                                             probe: u64::from_str_radix(f[4], 16).unwrap(),
                                             viols: Vec::new(),
                                             stats,
+                                            hard: f.get(13).map(|x| *x == "1").unwrap_or(false),
                                         });
                                     }
                                     b'V' => {
@@ -650,6 +696,7 @@ fn explore(args: &[String]) -> i32 {
                                         probe: 0,
                                         viols: vec![VRec { clause: "CRASH".to_string(), sig, layout: -1, step: -1, detail: excerpt }],
                                         stats: [0; 7],
+                                        hard: true,
                                     });
                                     skip = i + 1;
                                 }
@@ -684,13 +731,15 @@ fn explore(args: &[String]) -> i32 {
                     }
                 }
                 for v in t.viols {
-                    let e = groups.entry((v.clause.clone(), v.sig.clone())).or_insert((0, Vec::new()));
+                    let e = groups.entry((v.clause.clone(), v.sig.clone(), context_of(&hist))).or_insert((0, Vec::new()));
                     e.0 += 1;
                     if e.1.len() < 3 {
                         e.1.push((hist.clone(), v));
                     }
                 }
-                continue;
+                if t.hard {
+                    continue;
+                }
             }
             distinct_died.insert(t.died);
             match seen.get(&t.key) {
@@ -706,7 +755,7 @@ fn explore(args: &[String]) -> i32 {
                                 history_to_string(&first_hist[first as usize])
                             ),
                         };
-                        let e = groups.entry((v.clause.clone(), v.sig.clone())).or_insert((0, Vec::new()));
+                        let e = groups.entry((v.clause.clone(), v.sig.clone(), context_of(&hist))).or_insert((0, Vec::new()));
                         e.0 += 1;
                         if e.1.len() < 3 {
                             e.1.push((hist.clone(), v));
@@ -797,11 +846,11 @@ fn explore(args: &[String]) -> i32 {
     j.push_str(&format!(" \"samples\": [{}],\n", samples.iter().map(|s| jstr(s)).collect::<Vec<_>>().join(", ")));
     j.push_str(&format!(" \"machinery_errors\": [{}],\n", machinery.iter().take(20).map(|s| jstr(s)).collect::<Vec<_>>().join(", ")));
     j.push_str(" \"violations\": [\n");
-    let mut keys: Vec<&(String, String)> = groups.keys().collect();
+    let mut keys: Vec<&(String, String, String)> = groups.keys().collect();
     keys.sort();
     for (gi, k) in keys.iter().enumerate() {
         let (count, wit) = &groups[*k];
-        j.push_str(&format!("  {{\"clause\": {}, \"sig\": {}, \"count\": {count}, \"witnesses\": [", jstr(&k.0), jstr(&k.1)));
+        j.push_str(&format!("  {{\"clause\": {}, \"sig\": {}, \"context\": {}, \"count\": {count}, \"witnesses\": [", jstr(&k.0), jstr(&k.1), jstr(&k.2)));
         for (wi, (h, v)) in wit.iter().enumerate() {
             if wi > 0 {
                 j.push_str(", ");
